@@ -108,34 +108,69 @@ func vPick(d *Document, name string, typ int, val int) vOp {
 	case vTCounter:
 	case vTTree:
 		// structure-preserving domain (C01): text edits inside one element,
-		// whole-element insert/delete, style
+		// whole-element insert/delete, style. Index arithmetic is derived
+		// from the XML the replica shows (flat <r><p>text</p>...</r>).
 		tr := root.GetTree("tree")
+		sizes, ok := vTreeParas(tr.ToXML())
+		zzvsym.Assume(ok) // other shapes are outside the bound, not violations
 		op.k = zzvsym.IntRange(name+"_k", 0, 4)
 		switch op.k {
-		case 0:
-			op.i = zzvsym.IntRange(name+"_i", 1, 3)
-		case 1:
-			op.i = zzvsym.IntRange(name+"_i", 1, 2)
-		case 2:
-			op.i = []int{0, 4, 8}[zzvsym.IntRange(name+"_i", 0, 2)]
-			if op.i > tr.Len() {
-				op.i = tr.Len()
+		case 0: // insert text inside the first paragraph
+			zzvsym.Assume(len(sizes) > 0)
+			op.i = zzvsym.IntRange(name+"_i", 1, sizes[0]-1)
+		case 1: // delete one character of the first paragraph
+			zzvsym.Assume(len(sizes) > 0 && sizes[0] > 2)
+			op.i = zzvsym.IntRange(name+"_i", 1, sizes[0]-2)
+		case 2: // insert a whole element at a paragraph boundary
+			j := zzvsym.IntRange(name+"_i", 0, len(sizes))
+			for _, sz := range sizes[:j] {
+				op.i += sz
 			}
-		case 3:
-			zzvsym.Assume(tr.Len() >= 8)
-			op.i = []int{0, 4}[zzvsym.IntRange(name+"_i", 0, 1)]
+		case 3: // delete one whole paragraph
+			zzvsym.Assume(len(sizes) > 0)
+			j := zzvsym.IntRange(name+"_i", 0, len(sizes)-1)
+			for _, sz := range sizes[:j] {
+				op.i += sz
+			}
+			op.j = op.i + sizes[j]
+		case 4: // style the first paragraph
+			zzvsym.Assume(len(sizes) > 0)
 		}
-		// the first paragraph must still look as the selectors assume
-		zzvsym.Assume(vTreeShapeOK(tr.ToXML()))
 	}
 	return op
 }
 
-// vTreeShapeOK restricts tree edits to states where the index arithmetic of
-// the alphabet (first paragraph = indices 0..4 holding >= 2 characters) is
-// still valid; other states are outside the bound, not violations.
-func vTreeShapeOK(xml string) bool {
-	return len(xml) >= 12 && xml[:6] == "<r><p>" && xml[6] != '<' && xml[7] != '<'
+// vTreeParas parses the XML of a flat tree <r><p ...>text</p>...</r> and
+// returns the index size of every paragraph (2 + number of characters).
+func vTreeParas(xml string) ([]int, bool) {
+	if len(xml) < 7 || xml[:3] != "<r>" || xml[len(xml)-4:] != "</r>" {
+		return nil, false
+	}
+	body := xml[3 : len(xml)-4]
+	var sizes []int
+	for len(body) > 0 {
+		if len(body) < 2 || body[:2] != "<p" {
+			return nil, false
+		}
+		k := 2
+		for k < len(body) && body[k] != '>' {
+			k++
+		}
+		if k >= len(body) {
+			return nil, false
+		}
+		body = body[k+1:]
+		n := 0
+		for n < len(body) && body[n] != '<' {
+			n++
+		}
+		if len(body) < n+4 || body[n:n+4] != "</p>" {
+			return nil, false
+		}
+		sizes = append(sizes, 2+n)
+		body = body[n+4:]
+	}
+	return sizes, true
 }
 
 // vFixedOp is one representative edit per content type that is valid in
@@ -206,7 +241,7 @@ func vApplyIn(root *json.Object, op vOp) {
 		case 2: // insert a whole element between / around the paragraphs
 			tr.Edit(op.i, op.i, &json.TreeNode{Type: "p", Children: []json.TreeNode{{Type: "text", Value: string(rune('a' + val%26))}}}, 0)
 		case 3: // delete a whole paragraph
-			tr.Edit(op.i, op.i+4, nil, 0)
+			tr.Edit(op.i, op.j, nil, 0)
 		case 4: // style the first paragraph
 			tr.Style(0, 1, map[string]string{"b": string(rune('0' + val%10))})
 		}
